@@ -257,6 +257,72 @@ def oracle(op, args, obs):
     return ("unknown-operator", "")
 
 
+# ------------------------------------------------------------------ known defect classes: witness and operand footprint
+# The Coq model mirrors today's code, defects included (they are the _refuted theorems).  Each run probes the
+# implementation on the witness of every class; when a class no longer reproduces (repaired upstream or by a fix: commit)
+# the operands inside that class's footprint are left out of the model/implementation correspondence (the model is stale
+# exactly there; the property oracle still judges the implementation on them) and the evidence names the class under
+# "model_stale_for".  Anything else that differs is reported.
+PROBES = {
+    "modulus-of-exact-multiple-with-opposite-signs-returns-divisor": ("%", [I(-10), I(5)]),
+    "times-wrapped-int-product-just-above-2^63": ("*", [I(16440948372290153), I(561)]),
+    "times-float-although-product-fits-within-1024-of-2^63": ("*", [I(MAX), I(1)]),
+    "plus-min-int64-plus-min-int64-gives-int-zero": ("+", [I(MIN), I(MIN)]),
+    "minus-zero-minus-min-int64-gives-int-min-int64": ("-", [I(0), I(MIN)]),
+    "divide-min-int64-by-minus-one-wraps": ("/", [I(MIN), I(-1)]),
+    "dot-divide-int-by-zero-panics": ("./", [I(1), I(0)]),
+    "mod-op-zero-modulus-panics": ("madd", [I(5), I(3), I(0)]),
+    "pow-through-float64-inexact-beyond-2^53": ("**", [I(3), I(39)]),
+    "pow-negative-exponent-underflow-gives-int-zero": ("**", [I(2), I(-1075)]),
+    "mexp-exponent-0-or-1-not-reduced": ("mexp", [I(10), I(1), I(3)]),
+    "mod-op-reduces-after-64-bit-wrap": ("mmul", [I(2 ** 32), I(2 ** 32), I(7)]),
+    "int-preserving-math-function-goes-through-float64": ("floor", [I(2 ** 53 + 1)]),
+    "roundm-zero-modulus-gives-garbage-int": ("roundm", [I(7), I(0)]),
+}
+
+
+def footprints(op, args):
+    """classes whose defect region contains these operands (a function of the operands only)"""
+    if not all(a[0] == "i" for a in args):
+        return set()
+    v = [a[1] for a in args]
+    out = set()
+    if op == "%" and v[1] != 0 and v[0] % v[1] == 0 and (v[0] < 0) != (v[1] < 0):
+        out.add("modulus-of-exact-multiple-with-opposite-signs-returns-divisor")
+    if op == "*" and T1024 - 1024 <= abs(v[0] * v[1]) <= 2 ** 63 + 4096:
+        out |= {"times-wrapped-int-product-just-above-2^63", "times-float-although-product-fits-within-1024-of-2^63"}
+    if op == "+" and v == [MIN, MIN]:
+        out.add("plus-min-int64-plus-min-int64-gives-int-zero")
+    if op == "-" and v == [0, MIN]:
+        out.add("minus-zero-minus-min-int64-gives-int-min-int64")
+    if op in ("/", "//") and v == [MIN, -1]:
+        out.add("divide-min-int64-by-minus-one-wraps")
+    if op == "./" and v[1] == 0:
+        out.add("dot-divide-int-by-zero-panics")
+    if op in TERN:
+        if v[2] == 0:
+            out.add("mod-op-zero-modulus-panics")
+        if op == "mexp" and v[1] in (0, 1):
+            out.add("mexp-exponent-0-or-1-not-reduced")
+        inter = {"madd": v[0] + v[1], "msub": v[0] - v[1], "mmul": v[0] * v[1], "mexp": max(abs(v[0]), abs(v[2])) ** 2}[op]
+        if not in64(inter):
+            out.add("mod-op-reduces-after-64-bit-wrap")
+    if op == "**":
+        a, b = v
+        if b < 0:
+            out.add("pow-negative-exponent-underflow-gives-int-zero")
+        if abs(a) > 2 ** 53 or abs(b) > 2 ** 53 or (abs(a) >= 2 and b > 64) or (0 <= b <= 64 and abs(a ** b) > 2 ** 53):
+            out.add("pow-through-float64-inexact-beyond-2^53")
+    if op in ("abs", "ceil", "floor", "round", "sgn") and abs(v[0]) > 2 ** 53:
+        out.add("int-preserving-math-function-goes-through-float64")
+    if op == "roundm":
+        if v[1] == 0:
+            out.add("roundm-zero-modulus-gives-garbage-int")
+        elif max(abs(v[0]), abs(v[1])) > 2 ** 26:
+            out.add("int-preserving-math-function-goes-through-float64")
+    return out
+
+
 # ------------------------------------------------------------------ generators
 def int_grid(ctx, full):
     ks = range(1, 64) if full else [1, 2, 3, 7, 8, 15, 16, 26, 31, 32, 33, 52, 53, 54, 61, 62, 63]
@@ -429,7 +495,7 @@ def run(ctx):
                        "pow with a non-integer exponent other than +-0.5 (needs math.Exp/Log) is outside the model: only kind float / no crash is compared",
                        "the other ten kinds of the disposition matrices (absent, empty, error ...) belong to C08"]
     forbidden_gate(ctx, ["Base", "C07"])
-    ok, why = check_props(ctx, "C07/Props.v", ["C07/ProofsBits.vo", "C07/ProofsMod.vo", "C07/ProofsWit.vo", "C07/Harness.vo"])
+    ok, why = check_props(ctx, "C07/Props.v", ["C07/ProofsBits.vo", "C07/ProofsMod.vo", "C07/ProofsWit.vo", "C07/ProofsMixed.vo", "C07/Harness.vo"])
     cases = gen_cases(ctx)
     # dedupe, keep order
     seen, uniq = set(), []
@@ -467,6 +533,19 @@ def run(ctx):
         other = [c for c in flagged if c.split(":")[0] in ("other", "panic-other")]
         ctx.violation({"broken": why, "note": "proof obligations of C07/Props.v no longer check"}, found_input=bool(other))
         return
+    # ---- which known defect classes still reproduce on this tree (selects where the model is compared)
+    pk = sorted(PROBES)
+    pobs = impl_bif(ctx, [PROBES[c] for c in pk])
+    repaired = set()
+    probe_report = {}
+    for c, o in zip(pk, pobs):
+        r = oracle(PROBES[c][0], PROBES[c][1], o)
+        probe_report[c] = {"witness": PROBES[c][0] + " " + " ".join(arg_txt(a) for a in PROBES[c][1]), "observed": list(o),
+                           "status": "reproduces" if r is not None else "no longer reproduces"}
+        if r is None:
+            repaired.add(c)
+    ctx.cov["variant_probe"] = probe_report
+    ctx.cov["model_stale_for"] = sorted(repaired)
     # ---- correspondence in Coq: stratified sample + every oracle-flagged case (capped)
     rng = ctx.rng
     per_op = 500 if ctx.tier == "thorough" else 60
@@ -482,6 +561,8 @@ def run(ctx):
     for cls, lst in flagged.items():
         chosen += [i for i, _ in lst[:(40 if ctx.tier == 'thorough' else 12)]]
     chosen = sorted(set(chosen))
+    if repaired:
+        chosen = [i for i in chosen if not (footprints(cases[i][0], cases[i][1]) & repaired)]
     terms = [coq_case(cases[i][0], cases[i][1], obs[i]) for i in chosen]
     ctx.dist("coq_correspondence_cases", len(terms))
     with ctx.timed("coq_cases"):
